@@ -164,24 +164,25 @@ theorem C08_preserves_of_evaluatedAtTrim (hwf : WF wb) (hl : Local wb f) {I O : 
 
 /-! ## the trimmed workbook is well formed -/
 
-/- every formula that remains and feeds an output still finds its precedents: a child of a walked cell is walked or
-   frozen; a walked cell stays in the cell map or is a range over kept cells (re-created on the next read); a frozen
-   cell stays in the cell map and has no precedents. -/
+/- every formula that remains still finds its precedents: what remains is exactly the walked and the frozen cells; a
+   child of a walked cell is walked or frozen; a walked cell stays in the cell map (ranges included); a frozen cell
+   stays in the cell map and has no precedents.  (True of the repaired code; the pinned code deleted walked ranges and
+   kept dependants that feed no output with dangling precedents — see Model/Trim.lean.) -/
 theorem C08_wf (hwf : WF wb) (hl : Local wb f) {I O : List Nat} {s : State α} {t : Trimmed α}
     (hr : Ready wb f s) (h : trim wb f I O s = .ok t) :
     WF t.wb ∧
     (∀ k, t.live k = true → k < wb.n ∧ t.wb.deps k = wb.deps k ∧ t.wb.kind k = wb.kind k ∧
-      (t.keep k = true ∨ wb.kind k = .range) ∧
+      t.keep k = true ∧
       ∀ j, j ∈ t.wb.deps k → t.live j = true ∨ t.frozen j = true) ∧
-    (∀ k, t.frozen k = true → t.keep k = true ∧ t.wb.deps k = []) := by
+    (∀ k, t.frozen k = true → t.keep k = true ∧ t.wb.deps k = []) ∧
+    (∀ k, t.keep k = true → t.live k = true ∨ t.frozen k = true) := by
   obtain ⟨rfl, fr, _⟩ := trim_ok hwf hl hr h
-  refine ⟨cutAt_wf hwf _, fun k hk => ?_, fun k hk => ⟨frozen_keep _ I O hk, cutAt_deps_of hk⟩⟩
+  refine ⟨cutAt_wf hwf _, fun k hk => ?_, fun k hk => ⟨frozen_keep _ I O hk, cutAt_deps_of hk⟩,
+    fun k hk => keep_cases _ I O hk⟩
   have hnf := live_not_frozen _ I O hwf hk
   have hlt := live_lt _ I O hwf (fun o ho => (fr.outs o ho).1) hk
   refine ⟨hlt, cutAt_deps_of_not hnf, cutAt_kind_of_not hnf, ?_, fun j hj => ?_⟩
-  · rcases live_keep_or_range _ I O hwf hk with h | h
-    · exact Or.inl h
-    · exact Or.inr (by simpa [isRange] using h)
+  · exact live_keep _ I O hk
   · rw [freeze_wb, cutAt_deps_of_not hnf] at hj
     exact live_step _ I O hwf hk hlt hj
 
@@ -243,6 +244,37 @@ theorem C08_error_iff (I O : List Nat) (s : State α) :
       · exact (List.find?_eq_none.mp hf) o ho (by simpa using hn)
       · exact (List.find?_eq_none.mp hg) i hi hu
 
+/- ATOMICITY: "a trim that fails must leave the model unchanged".  In the model this holds by construction for the
+   workbook and the formulas: `trim` returning `.error` returns no trimmed model at all — the caller keeps `wb`, `f`.
+   What a rejected call has done when the ValueError is raised is step 1 only (`_gen_graph(outputs)`, the error is
+   detected before step 3 drops any formula): the state it leaves is `genGraph wb f O s`.  That state has the same
+   inputs, keeps the cell map and every cached value, is again Ready, and every cell evaluates to what it evaluated to
+   before the call — so a later `trim` with a corrected input list starts from a model that is observationally the one
+   the failed call was given, and all theorems above apply to it unchanged. -/
+theorem C08_failed_trim_atomic (hwf : WF wb) (hl : Local wb f) {I O : List Nat} {s : State α} {i : Nat}
+    (hr : Ready wb f s) (h : trim wb f I O s = .error (.inputUnused i)) :
+    Ready wb f (genGraph wb f O s) ∧ (genGraph wb f O s).inp = s.inp ∧
+    (∀ m, s.built m = true → (genGraph wb f O s).built m = true) ∧
+    ∀ a, a < wb.n → (evaluate wb f a (genGraph wb f O s)).1 = (evaluate wb f a s).1 := by
+  have hO : ∀ o, o ∈ O → o < wb.n := by
+    intro o ho
+    unfold trim at h
+    simp only at h
+    cases hce : checkErr wb I O (genGraph wb f O s) with
+    | none => rw [hce] at h; exact absurd h (by simp)
+    | some e =>
+      rw [hce] at h
+      have he : e = .inputUnused i := by simpa using h
+      unfold checkErr at hce
+      cases hf : O.find? (fun o => decide (wb.n ≤ o)) with
+      | some o' => rw [hf] at hce; simp only [Option.some.injEq] at hce; rw [he] at hce; exact absurd hce (by simp)
+      | none =>
+        have := (List.find?_eq_none.mp hf) o ho
+        simpa using this
+  have g := genGraph_spec hwf hl O hO s hr.inv hr.closed
+  refine ⟨⟨g.1, g.2.1⟩, g.2.2.1, g.2.2.2.1, fun a ha => ?_⟩
+  rw [(evaluate_spec hwf hl g.1 a).val ha, (evaluate_spec hwf hl hr.inv a).val ha, g.2.2.1]
+
 /-! ## the trimmed model as an engine state: any later history -/
 
 /- the trimmed state satisfies the invariant of C01 for the trimmed workbook, so `C01_coherence` applies to every
@@ -285,6 +317,36 @@ theorem C08_trim_inv (hwf : WF wb) (hl : Local wb f) {I O : List Nat} {s : State
           rw [if_pos hlj]; exact hcj
       · left; rw [freeze_wb]; exact cutAt_kind_of hfj
     · exact absurd rfl hm'
+
+/-! ## trimming an already trimmed model -/
+
+/- `trim → trim again`: a trimmed model is again Ready for its own workbook `t.wb` and semantics `t.f` (its cell map
+   is closed under precedents by `C08_wf`, the engine invariant holds by `C08_trim_inv`) and stays so under any later
+   history (`C08_ready_run`); hence every theorem of this file applies to a second `trim t.wb t.f I' O' t.st'` with
+   the once-trimmed model in the role of the untrimmed one — for the same, a smaller or a larger input/output list. -/
+theorem C08_retrim_ready (hwf : WF wb) (hl : Local wb f) {I O : List Nat} {s : State α} {t : Trimmed α}
+    (hr : Ready wb f s) (h : trim wb f I O s = .ok t) :
+    WF t.wb ∧ Local t.wb t.f ∧ Ready t.wb t.f t.st := by
+  obtain ⟨hwf', hl', hinv'⟩ := C08_trim_inv hwf hl hr h
+  have wf := C08_wf hwf hl hr h
+  refine ⟨hwf', hl', hinv', ?_⟩
+  obtain ⟨rfl, _, _⟩ := trim_ok hwf hl hr h
+  intro m hm j hj
+  rcases wf.2.2.2 m hm with hlv | hfz
+  · rcases (wf.2.1 m hlv).2.2.2.2 j hj with hlj | hfj
+    · exact (wf.2.1 j hlj).2.2.2.1
+    · exact (wf.2.2.1 j hfj).1
+  · rw [(wf.2.2.1 m hfz).2] at hj; simp at hj
+
+/- the second trim preserves the outputs of the once-trimmed model (instance of `C08_preserves`). -/
+theorem C08_retrim_preserves (hwf : WF wb) (hl : Local wb f) (eqv : α → α → Bool) {I O I' O' : List Nat}
+    {s : State α} {t t' : Trimmed α} (hr : Ready wb f s) (h : trim wb f I O s = .ok t) (hist : List (Op α))
+    (h' : trim t.wb t.f I' O' (run t.wb t.f eqv t.st hist) = .ok t')
+    (C : Nat → Bool) (hC : ∀ k, C k = true → inputCells t.wb I' k = true) (v : Nat → α) (o : Nat) (ho : o ∈ O') :
+    denote (cutAt t'.wb C) t.f (override t'.st.inp C v) o =
+      denote (cutAt t.wb C) t.f (override (run t.wb t.f eqv t.st hist).inp C v) o := by
+  obtain ⟨hwf', hl', hr'⟩ := C08_retrim_ready hwf hl hr h
+  exact C08_preserves hwf' hl' (C08_ready_run hwf' hl' eqv hist hr') h' C hC v o ho
 
 theorem setValue_inp_other (hwf : WF wb) (hl : Local wb f) (eqv : α → α → Bool) {s : State α} (hinv : Inv wb f s)
     (i : Nat) (v : α) (k : Nat) (h : k ≠ i ∨ wb.kind i ≠ .input) : (setValue wb eqv i v s).inp k = s.inp k := by
@@ -468,14 +530,11 @@ example :
 /-- A1 = 1, W1 = 2, X1 = A1+W1, B1 = A1+A1 -/
 def dangling : List Spec := [.inp (.num 1), .inp (.num 2), .fml (.add 0 1), .fml (.add 0 0)]
 
-/- `C08_wf` speaks about the cells that feed an output, and that restriction is forced: a dependant of an input that
-   feeds no output (X1, evaluated before the trim) stays in the cell map with its formula while its precedent W1 is
-   deleted. -/
-theorem C08_wf_dangling_counterexample :
-    (match trim (mkWb dangling) (sem dangling) [0] [3]
-        (evaluate (mkWb dangling) (sem dangling) 2 (initNoData (inputsOf dangling))).2 with
-      | .ok t => t.keep 2 && !t.live 2 && decide (1 ∈ t.wb.deps 2) && !t.keep 1
-      | .error _ => false) = true := by
+/- a dependant of an input that feeds no output (X1, evaluated before the trim) is deleted together with its other
+   precedent W1 (the pinned code kept X1 with its formula and deleted W1). -/
+example :
+    trimmedKeep (trim (mkWb dangling) (sem dangling) [0] [3]
+        (evaluate (mkWb dangling) (sem dangling) 2 (initNoData (inputsOf dangling))).2) 4 = some [0, 3] := by
   decide +kernel
 
 /-- A1 = 1, A2 = 2, range A1:A2, B1 = A1+A1 (reads a member directly), C1 = SUM(A1:A2, B1); Z1 = 3, Z2 = Z1+Z1
